@@ -55,7 +55,7 @@ def writer_blocks(fmt, fn):
         for w in sorted(writes, key=lambda c: (c.lineno, c.col_offset)):
             guard_n, other = None, []
             for test, pol in au.guards(w, stop=loop):
-                t = b.resolve(test, at=w, keep=tuple(au.names(loop.target)))
+                t = cc.resolve(b, test, at=w, keep=tuple(au.names(loop.target)))
                 n = arity_guard(t, prov, w) if pol else None
                 if n is not None:
                     guard_n = n
@@ -107,7 +107,7 @@ def _analyse_parts(blk):
             j = p[1]
             g = j.gens[0] if len(j.gens) == 1 else None
             ok = False
-            if g is not None and not g.ifs and prov.row_expr_kind(g.iter, j.node) == blk.kind:
+            if g is not None and not g.ifs and prov.row_expr_kind(cc.Prov.unwrap_row(g.iter), j.node) == blk.kind:
                 for q in j.parts:
                     if q[0] == "leaf":
                         c = prov.classify(q[1].expr, q[1].expr)
@@ -193,6 +193,25 @@ def b1_writer_offsets(ctx, fmt, mod, fn, prov, b):
     return n
 
 
+def altering_wrappers(e):
+    """Wrappers around a row that change its order or content: sorted(..), reversed(..), set(..), keyify(..), r[::-1], r[1:]
+    (list(..), tuple(..), r[:] keep it)."""
+    out = []
+    for _ in range(4):
+        if isinstance(e, ast.Call) and au.call_tail(e) in cc.Prov.ROW_WRAPPERS and e.args:
+            if au.call_tail(e) in ORDER_DESTROYING:
+                out.append(au.call_tail(e))
+            e = e.args[0]
+        elif isinstance(e, ast.Subscript) and isinstance(e.slice, ast.Slice):
+            sl = e.slice
+            if not (sl.lower is None and sl.upper is None and (sl.step is None or au.const(sl.step) == 1)):
+                out.append("slice")
+            e = e.value
+        else:
+            break
+    return out
+
+
 def v1_writer_order(ctx, fmt, mod, fn, prov, b):
     """iteration over a face/cell row for writing uses the row itself, and no order-destroying call touches a row"""
     n = 0
@@ -204,11 +223,12 @@ def v1_writer_order(ctx, fmt, mod, fn, prov, b):
         elif isinstance(node, ast.comprehension):
             its.append((node.iter, au.parent(node)))
         for it, at in its:
-            for x in au.walk(it):
-                rk = prov.row_expr_kind(x, x) if isinstance(x, (ast.Name, ast.Subscript)) else None
-                if rk in ("faces", "cells") and isinstance(x, ast.Name):
+            x = cc.Prov.unwrap_row(it)
+            rk = prov.row_expr_kind(x, it) if isinstance(x, ast.Name) else None
+            if rk in ("faces", "cells"):
+                if True:
                     n += 1
-                    ctx.check(x is it, "C04-V1", ctx.site(mod, fn, at),
+                    ctx.check(not altering_wrappers(it), "C04-V1", ctx.site(mod, fn, at),
                               f"{fmt}: {rk} row is iterated through `{au.src(it)}` instead of the row itself",
                               "the vertex order of a face / cell must be written unchanged",
                               note=f"{fmt}: {rk} row iterated in stored order")
@@ -556,7 +576,7 @@ def header_counts_writer(fn, prov, b, wblocks):
                 if p[0] == "lit":
                     tok += len(p[1].split())
                 elif p[0] == "leaf":
-                    e = b.resolve(p[1].expr, at=c)
+                    e = cc.resolve(b, p[1].expr, at=c)
                     if isinstance(e, ast.Call) and isinstance(e.func, ast.Name) and e.func.id == "len" and len(e.args) == 1 \
                             and prov.container_kind(e.args[0]) in cc.KINDS:
                         out.append((prov.container_kind(e.args[0]), p[1], c, tok))
@@ -611,7 +631,8 @@ def h1_flat_header(ctx, fmt, mod, wfn, rfn, prov, b, wblocks):
             continue
         n += 1
         wk = wc[i][0] if i < len(wc) else None
-        ctx.check(wk in kinds, "C04-H1", wsite,
+        mine = [wb.kind for wb in wblocks if wb.kind in kinds]
+        ctx.check(wk in kinds and (not mine or set(mine) == {wk}), "C04-H1", wsite,
                   f"{fmt}: header count #{i + 1} written is len(mesh.{wk}) but the importer uses count #{i + 1} to read "
                   f"{'/'.join(sorted(kinds))}",
                   f"`{name}` bounds the loop that reads {'/'.join(sorted(kinds))} rows; the exporter writes the number of "
@@ -743,7 +764,7 @@ def count_table(repo, mod, fn):
             val = None
             excluded = []
             for test, pol in gs:
-                t = b.resolve(test, at=st, keep=tuple(au.names(loops[0].target)))
+                t = cc.resolve(b, test, at=st, keep=tuple(au.names(loops[0].target)))
                 n = arity_guard(t, prov, st)
                 if n is None:
                     return None
@@ -765,15 +786,15 @@ def medit_count_ok(repo, mod, wb, count_leaf):
     e = count_leaf.expr
     if wb.guard_n is None and not wb.other_guards:
         it, _ = cc.strip_enumerate(loop.iter)
-        r = b.resolve(e, at=wb.loop)
+        r = cc.resolve(b, e, at=wb.loop)
         ok = isinstance(r, ast.Call) and isinstance(r.func, ast.Name) and r.func.id == "len" and len(r.args) == 1 \
-            and au.same(r.args[0], b.resolve(it, at=wb.loop))
+            and au.same(r.args[0], cc.resolve(b, it, at=wb.loop))
         return ok, f"count `{au.src(r)}` vs rows of `{au.src(it)}`"
     if wb.guard_n is None:
         return None, "guarded by an unrecognised condition"
     N = wb.guard_n
     # comprehension forms
-    r = b.resolve(e, at=wb.loop) if not isinstance(e, ast.Name) else (b.reaching(e.id, wb.loop) or e)
+    r = e if not isinstance(e, ast.Name) else (b.reaching(e.id, wb.loop) or e)   # original nodes: provenance needs parents
     comp = None
     if isinstance(r, ast.Call) and isinstance(r.func, ast.Name) and r.func.id in ("sum", "len") and len(r.args) == 1 \
             and isinstance(r.args[0], (ast.GeneratorExp, ast.ListComp)):
@@ -859,13 +880,13 @@ def run_medit(ctx, repo):
                   f"medit {kw}: written from mesh.{wb.kind}, read into {rb.kind}",
                   f"elements saved as {wb.kind} come back as {rb.kind}", note=f"medit {kw}: {wb.kind} on both sides")
         ctx.check(ra == N and rb.spec.skip == wb.tag_fields, "C04-E1", rs,
-                  f"medit {kw}: written with {N} indices per row, parsed with {ra}",
+                  f"medit {kw}: written with {N} {'coordinates' if wb.kind == 'vertices' else 'indices'} per row, parsed with {ra}",
                   f"import_medit keeps {ra} token(s) of each `{kw}` row (after skipping {rb.spec.skip}) while export_medit writes "
-                  f"{N} vertex indices followed by {wb.trailing} reference token(s): the reloaded {wb.kind[:-1]} is not the saved one",
+                  f"{N} {'coordinates' if wb.kind == 'vertices' else 'vertex indices'} followed by {wb.trailing} reference token(s): the reloaded {wb.kind[:-1] if wb.kind != 'vertices' else 'vertex'} is not the saved one",
                   note=f"medit {kw}: {N} indices per row on both sides")
         if rb.kind != "vertices":
             cnt_ok = rb.count is not None and any(isinstance(x, ast.Call) and isinstance(x.func, ast.Name) and x.func.id == "int"
-                                                  for x in au.walk(rb.b.resolve(rb.count, at=rb.node)))
+                                                  for x in au.walk(cc.resolve(rb.b, rb.count, at=rb.node)))
             ctx.check(cnt_ok, "C04-H1", rs, f"medit {kw}: the number of rows to parse is not read from the count line",
                       "the exporter writes the number of rows on the line after the keyword")
     coordinate_order(ctx, fmt, mod, wfn, wblocks)
@@ -875,7 +896,7 @@ def run_medit(ctx, repo):
     ctx.require_count("C04-L1 medit coordinate sites", nl, 4)
     nv = v1_writer_order(ctx, fmt, mod, wfn, prov, b)
     nv += v1_reader_order(ctx, fmt, mod, [f for q, f in repo.module(mod).funcs.items() if "<locals>" not in q], rblocks, wfn)
-    ctx.require_count("C04-V1 medit rows", nv, 8)
+    ctx.require_count("C04-V1 medit rows", nv, 4)
 
 
 # =========================================================================== obj
@@ -956,7 +977,7 @@ def obj_face_reader(repo, mod, fn, rb):
     rets = [s for s in au.stmts(g.body) if isinstance(s, ast.Return)]
     if len(rets) != 1 or not isinstance(rets[0].value, ast.Tuple) or pos >= len(rets[0].value.elts):
         return "token parser does not return a tuple"
-    e = gb.resolve(rets[0].value.elts[pos], at=rets[0])
+    e = cc.resolve(gb, rets[0].value.elts[pos], at=rets[0])
     conv, off = _conv_of(e)
     # the parsed component is the first '/'-separated field of the token
     sub = [x for x in au.walk(e) if isinstance(x, ast.Subscript) and isinstance(au.const(x.slice), int)]
@@ -1069,7 +1090,7 @@ def run_obj(ctx, repo):
     ctx.require_count("C04-L1 obj coordinate sites", nl, 2)
     nv = v1_writer_order(ctx, fmt, mod, wfn, prov, b)
     nv += v1_reader_order(ctx, fmt, mod, [f for q, f in repo.module(mod).funcs.items() if "<locals>" not in q], rblocks, wfn)
-    ctx.require_count("C04-V1 obj rows", nv, 3)
+    ctx.require_count("C04-V1 obj rows", nv, 2)
 
 
 # =========================================================================== off / tet  (rows tagged with their length)
@@ -1138,7 +1159,7 @@ def run_off(ctx, repo):
     ctx.require_count("C04-L1 off coordinate sites", nl, 2)
     nv = v1_writer_order(ctx, fmt, mod, wfn, prov, b)
     nv += v1_reader_order(ctx, fmt, mod, [f for q, f in repo.module(mod).funcs.items() if "<locals>" not in q], rblocks, wfn)
-    ctx.require_count("C04-V1 off rows", nv, 2)
+    ctx.require_count("C04-V1 off rows", nv, 1)
 
 
 def run_tet(ctx, repo):
@@ -1165,7 +1186,7 @@ def run_tet(ctx, repo):
     ctx.require_count("C04-L1 tet coordinate sites", nl, 2)
     nv = v1_writer_order(ctx, fmt, mod, wfn, prov, b)
     nv += v1_reader_order(ctx, fmt, mod, [f for q, f in repo.module(mod).funcs.items() if "<locals>" not in q], rblocks, wfn)
-    ctx.require_count("C04-V1 tet rows", nv, 2)
+    ctx.require_count("C04-V1 tet rows", nv, 1)
 
 
 def run_xyz(ctx, repo):
@@ -1325,7 +1346,7 @@ def arity_tables(repo, rfn):
         kind = container_append_kind(c)
         if kind not in ("faces", "cells") or len(c.args) != 1:
             continue
-        row = b.resolve(c.args[0], at=c)
+        row = cc.resolve(b, c.args[0], at=c)
         if not (isinstance(row, (ast.ListComp, ast.GeneratorExp)) and len(row.generators) == 1):
             continue
         it = row.generators[0].iter
@@ -1464,7 +1485,7 @@ def g1_header_layout(ctx, repo, wfn, afn, fields, start, role_field):
                   f"geogram: the {rrole} of an attribute is written on header line {wl} and read from line {rk}",
                   f"Chunk.__init__ takes self.{role_field[rrole]} from line {rk} of the chunk; a user attribute comes back "
                   f"with the wrong {rrole} or fails to parse", note=f"geogram [ATTR] header: {rrole} on line {rk}")
-    ctx.check(n_lines in start, "C04-G1", asite,
+    ctx.check(start == {n_lines}, "C04-G1", asite,
               f"geogram: attribute values start on line {n_lines} of the chunk, the importer reads them from line {sorted(start)}",
               "header lines parsed as values (or values skipped)", note=f"geogram [ATTR] payload starts on line {n_lines}")
     # payload: dense, element-major, `elemsize` values per element
@@ -1514,7 +1535,7 @@ def g1_header_layout(ctx, repo, wfn, afn, fields, start, role_field):
                           f"geogram: a Bool attribute value may be written as `{au.src(lf.expr)}` (True/False), the importer "
                           f"parses bool(int(token))", "int('True') raises: a mesh with a Bool attribute cannot be reloaded",
                           note="geogram: Bool values written through int()")
-    ctx.require_count("C04-A1 attribute value sites", nb, 4)
+    ctx.require_count("C04-A1 attribute value sites", nb, 2)
     return roles, cont_param
 
 
@@ -1530,7 +1551,7 @@ def g1_import_stride(ctx, repo, iafn, role_field):
         loops = [a for a in au.ancestors(x) if isinstance(a, ast.For)]
         if len(loops) >= 2 and all(isinstance(l.target, ast.Name) for l in loops[:2]):
             j, i = loops[0].target.id, loops[1].target.id
-            p = sym.to_poly(ib.resolve(x.slice, at=x, keep=(i, j)))
+            p = sym.to_poly(cc.resolve(ib, x.slice, at=x, keep=(i, j)))
             jr, ir = _range_arg(loops[0]), _range_arg(loops[1])
             if jr is not None and ir is not None:
                 stride = sym.to_poly(jr)
@@ -1560,7 +1581,7 @@ def geogram_chunks(ctx, repo, wfn, prov, b, special, start, tfold, fold_containe
         n_chunks += 1
         site = ctx.site(mod, wfn, c)
         lits = [line_literal(l) for l in lines]
-        if len(lines) not in start or any(x is None for x in lits):
+        if (start and len(lines) != max(start)) or any(x is None for x in lits):
             ctx.fail("C04-G1", site, "geogram: connectivity chunk header is not the literal lines the importer indexes",
                      f"header lines: {lits}")
             continue
@@ -1606,8 +1627,16 @@ def geogram_chunks(ctx, repo, wfn, prov, b, special, start, tfold, fold_containe
         ctx.check(str(nvals) == arity, "C04-G1", ctx.site(mod, wfn, lp),
                   f"geogram: chunk {name} declares {arity} value(s) per element but {nvals} are written per element",
                   "the importer groups the payload by the declared arity")
+        if match and match[0][4]:
+            want_kind = match[0][4][0]
+            good = bool(lvs) and all((prov.classify(lf.expr, lf.expr) or (None, None))[:2] == ("elem", want_kind) for lf in lvs)
+            ctx.check(good, "C04-G1", ctx.site(mod, wfn, lp),
+                      f"geogram: the payload of chunk {name} is not made of the "
+                      f"{'coordinates' if want_kind == 'vertices' else 'vertex indices'} of mesh.{want_kind}",
+                      f"the importer builds {want_kind} from these values; written: {[au.src(lf.expr) for lf in lvs]}",
+                      note=f"geogram: payload of {name} = elements of mesh.{want_kind}")
         it, _ = cc.strip_enumerate(lp.iter)
-        itr = b.resolve(it, at=lp)
+        itr = cc.resolve(b, it, at=lp)
         is_attr_obj = isinstance(itr, ast.Call) and au.call_tail(itr) in ("get_attribute", "create_attribute")
         dense = prov.container_kind(it) is not None or (isinstance(it, ast.Call) and au.call_tail(it) == "range")
         ctx.check(not is_attr_obj, "C04-G1", ctx.site(mod, wfn, lp),
@@ -1648,7 +1677,7 @@ def geogram_containers(ctx, repo, wfn, member_field, quoted, fold_container):
 def geogram_counts(ctx, repo, wfn, rfn, b, mesh, special, member_field, atts):
     mod = GEO
     wsite = ctx.site(mod, wfn)
-    for X in sorted({sp[0] for sp in special} | {"VERTICES"}):
+    for X in sorted(member_field):
         used = any(isinstance(x, ast.Subscript) and isinstance(x.slice, ast.Attribute) and x.slice.attr == X
                    and isinstance(au.parent(x), ast.Call) and au.call_tail(au.parent(x)) == "range" for x in au.walk(rfn))
         if not used:
@@ -1660,7 +1689,7 @@ def geogram_counts(ctx, repo, wfn, rfn, b, mesh, special, member_field, atts):
                      f"the importer loops over container_sizes[{X}] (0 when absent): no {fld} are loaded")
             continue
         c, cnt = ent
-        r = b.resolve(cnt.expr, at=c) if cnt is not None else None
+        r = cc.resolve(b, cnt.expr, at=c) if cnt is not None else None
         ok = isinstance(r, ast.Call) and isinstance(r.func, ast.Name) and r.func.id == "len" and len(r.args) == 1 \
             and au.src(r.args[0]) == f"{mesh}.{fld}"
         ctx.check(ok, "C04-H1", ctx.site(mod, wfn, c),
@@ -1774,13 +1803,48 @@ def run_geogram(ctx, repo):
     geogram_counts(ctx, repo, wfn, rfn, b, prov.mesh, special, member_field, atts)
     geogram_arity_tables(ctx, repo, wfn, rfn, wblocks, names_written)
     geogram_rows(ctx, repo, rfn, cfn, rblocks, fields)
+    ctx.require_count("C04-X1 geogram exporter preconditions", geogram_precondition(ctx, repo, wfn), 1)
     nb = b1_writer_offsets(ctx, fmt, mod, wfn, prov, b)
-    ctx.require_count("C04-B1 geogram index sites", nb, 4)
+    ctx.require_count("C04-B1 geogram index sites", nb, 2)
     nl = l1_float_format(ctx, fmt, mod, wfn, prov, b)
     ctx.require_count("C04-L1 geogram coordinate sites", nl, 1)
     nv = v1_writer_order(ctx, fmt, mod, wfn, prov, b)
     nv += v1_reader_order(ctx, fmt, mod, [], rblocks, wfn)
-    ctx.require_count("C04-V1 geogram rows", nv, 3)
+    ctx.require_count("C04-V1 geogram rows", nv, 2)
+
+
+def geogram_precondition(ctx, repo, wfn):
+    """An attribute the exporter reads unconditionally (`mesh.cell_faces.get_attribute("adjacent_cell")`) must be the one
+    save() has the connectivity create before exporting a volume mesh."""
+    mod = GEO
+    need = []
+    for c in au.calls(wfn):
+        if au.call_tail(c) == "get_attribute" and c.args and isinstance(c.args[0], ast.Constant) \
+                and isinstance(c.func.value, ast.Attribute):
+            nm, fld = c.args[0].value, c.func.value.attr
+            guarded = any(nm in au.src(t) and "has_attribute" in au.src(t) for t, pol in au.guards(c) if pol)
+            if not guarded:
+                need.append((nm, fld, c))
+    save = repo.func("mesh.mesh", "save")
+    ssite = ctx.site("mesh.mesh", save)
+    made = set()
+    for c in au.calls(save):
+        ch = au.chain(c.func)
+        if ch and len(ch) >= 3 and ch[-2] == "connectivity" and any("geogram" in au.src(t) for t, pol in au.guards(c) if pol):
+            q = "VolumeMesh._Connectivity." + ch[-1]
+            if repo.has_func("mesh.datatypes.volume", q):
+                m = repo.func("mesh.datatypes.volume", q)
+                ctx.site("mesh.datatypes.volume", m)
+                for k in au.calls(m):
+                    if au.call_tail(k) == "create_attribute" and k.args and isinstance(k.args[0], ast.Constant) \
+                            and isinstance(k.func.value, ast.Attribute):
+                        made.add((k.args[0].value, k.func.value.attr))
+    for nm, fld, c in need:
+        ctx.check((nm, fld) in made, "C04-X1", ctx.site(mod, wfn, c),
+                  f"geogram: the exporter reads mesh.{fld} attribute '{nm}' unconditionally but save() does not have it created",
+                  f"save() prepares {sorted(made)} before a geogram export of a volume mesh; a missing attribute makes every "
+                  f"such save raise", note=f"geogram: save() creates {fld}.{nm} before the export reads it")
+    return len(need)
 
 
 def run_formats(ctx):
